@@ -275,7 +275,27 @@ class State(metaclass=StateMeta):
             for argument in type_arguments
         )
         name: str = f"{cls.__name__}[{parameter_names}]"
-        bases: tuple[type[Self]] = (cls,)
+        # generic bases specialized with type variables of this type (class Child[T](Base[T]))
+        # are specialized along with it - Child[int] is a Base[int] as well
+        specialized_bases: list[Any] = []
+        for base in getattr(cls, "__orig_bases__", ()):
+            if not (isinstance(base, GenericAlias) and isinstance(get_origin(base), StateMeta)):
+                continue  # not a generic state handing over type variables
+
+            specialized: Any = get_origin(base)[
+                get_args(
+                    base[
+                        tuple(
+                            type_parameters.get(parameter, Any)
+                            for parameter in base.__parameters__
+                        )
+                    ]
+                )
+            ]
+            if isinstance(specialized, type):
+                specialized_bases.append(specialized)
+
+        bases: tuple[type[Self], ...] = (cls, *specialized_bases)
 
         parametrized_type: type[Self] = StateMeta.__new__(
             cls.__class__,
